@@ -122,31 +122,38 @@ def _sig(cfg, text, obs):
 def run(ctx):
     maxlen = 6 if ctx.quick else 8
     # ---- 1. universe + StreamImpl predictions from TLC
-    cfg_emit = 'CONSTANTS MaxLen = %d\nMode = "emit"\nSPECIFICATION Spec\nINVARIANT EmitLine\n' % maxlen
-    wd = ctx.sub("emit")
-    with open(os.path.join(SPEC_DIR, "MC_Stream.tla")) as f:
-        src = f.read()
-    src = src.replace("=============================================================================",
-                      "ASSUME PrintT(ToJson([configs |-> Configs]))\n"
-                      "=============================================================================")
-    emit_mod = os.path.join(wd, "MC_Stream.tla")
-    r = None
-    import shutil
-    for fn in os.listdir(SPEC_DIR):
-        if fn.endswith(".tla"):
-            shutil.copy(os.path.join(SPEC_DIR, fn), wd)
-    with open(emit_mod, "w") as f:
-        f.write(src)
-    ctx.log("TLC emit run (universe + StreamImpl outcomes), MaxLen=%d" % maxlen)
-    r = tlc.run("MC_Stream.tla", cfg_emit, wd, workers=16 if False else 1, timeout=3000)
+    ncfg = sum(1 for l in open(os.path.join(SPEC_DIR, "StreamConfigs.tla")) if l.strip().startswith("[prefix"))
+    ctx.log("TLC emit runs (universe + StreamImpl outcomes), MaxLen=%d, %d configs in parallel" % (maxlen, ncfg))
     cfgs = None
     pred = {}
-    for p in r.printed:
-        if "configs" in p:
-            cfgs = _cfgs_from_tlc(p)
-        elif "c" in p:
-            pred[(p["c"], J(p["t"]))] = (sorted((J(o[0]), J(o[1])) for o in p["outs"]),
-                                         sorted(J(x) for x in p["ideal"]))
+    emit_states = 0
+
+    def emit(i):
+        wd = ctx.sub("emit%d" % i)
+        import shutil
+        for fn in os.listdir(SPEC_DIR):
+            if fn.endswith(".tla"):
+                shutil.copy(os.path.join(SPEC_DIR, fn), wd)
+        with open(os.path.join(SPEC_DIR, "MC_Stream.tla")) as f:
+            src = f.read()
+        if i == 1:
+            src = src.replace("=" * 77, "ASSUME PrintT(ToJson([configs |-> Configs]))\n" + "=" * 77)
+        with open(os.path.join(wd, "MC_Stream.tla"), "w") as f:
+            f.write(src)
+        cfg_emit = ('CONSTANTS MaxLen = %d\nMode = "emit"\nCfgFrom = %d\nCfgTo = %d\n'
+                    'SPECIFICATION Spec\nINVARIANT EmitLine\n' % (maxlen, i, i))
+        return tlc.run("MC_Stream.tla", cfg_emit, wd, workers=1, timeout=3000)
+
+    from concurrent.futures import ThreadPoolExecutor
+    with ThreadPoolExecutor(16) as ex:
+        for r in ex.map(emit, range(1, ncfg + 1)):
+            emit_states += r.distinct
+            for p in r.printed:
+                if "configs" in p:
+                    cfgs = _cfgs_from_tlc(p)
+                elif "c" in p:
+                    pred[(p["c"], J(p["t"]))] = (sorted((J(o[0]), J(o[1])) for o in p["outs"]),
+                                                 sorted(J(x) for x in p["ideal"]))
     assert cfgs and pred, "emit run produced nothing"
     emit_states = r.distinct
     ctx.log("universe: %d configs, %d (config,text) pairs" % (len(cfgs), len(pred)))
@@ -266,16 +273,15 @@ def run(ctx):
     ctx.log("step traces: %d accepted, %d rejected (drift)" % (accepted, rejected))
 
     # ---- 5. design-level model checking of the transition system
-    mc_len = min(maxlen, 6 if ctx.quick else 7)
+    mc_len = min(maxlen, 5 if ctx.quick else 7)
     design = {}
-    states = trans = 0
-    for inv in ("FinalIdeal", "FinalCompletion", "StepSafety", "ChunkInvariant"):
-        m = tlc.run("MC_Stream.tla", 'CONSTANTS MaxLen = %d\nMode = "mc"\nSPECIFICATION Spec\nINVARIANT %s\n' % (
-            mc_len if inv != "ChunkInvariant" else min(mc_len, 6), inv),
-            ctx.sub("mc_" + inv), spec_dirs=[SPEC_DIR], workers=16, timeout=3000, expect_fail=True)
-        design[inv] = "violated" if m.violated else "holds"
-        states = max(states, m.distinct)
-        trans = max(trans, m.generated)
+    invs = ("FinalIdeal", "FinalCompletion", "StepSafety", "ChunkInvariant")
+    m = tlc.run("MC_Stream.tla", 'CONSTANTS MaxLen = %d\nMode = "mc"\nCfgFrom = 1\nCfgTo = 99\nSPECIFICATION Spec\n%s' % (
+        mc_len, "".join("INVARIANT %s\n" % x for x in invs)),
+        ctx.sub("mc"), spec_dirs=[SPEC_DIR], workers=16, timeout=3000, expect_fail=True)
+    for inv in invs:
+        design[inv] = "violated" if inv in m.violated else ("holds" if not m.violated else "not-decided (run stopped at first violation)")
+    states, trans = m.distinct, m.generated
     ctx.log("design verdict StreamImpl vs StreamIdeal: %s" % design)
     impl_bad = bool(ctx.violations)
     design_bad = any(v == "violated" for v in design.values())
